@@ -32,7 +32,10 @@ class ExtractorToken(tuple):
 
 
 class Evaluator:
-    STR_METHODS = {"lower", "endswith", "startswith", "strip", "lstrip", "rstrip"}
+    # pure, total methods of concrete strings (the router's paths are concrete representatives of suffix classes)
+    STR_METHODS = {"lower", "upper", "casefold", "endswith", "startswith", "strip", "lstrip", "rstrip", "split", "rsplit", "partition",
+                   "rpartition", "replace", "removesuffix", "removeprefix", "find", "rfind", "count", "splitlines", "isalpha", "isdigit",
+                   "isalnum", "title", "capitalize"}
 
     def __init__(self, project: Project, folder: Folder, externals: dict | None = None, max_steps: int = 20000):
         self.p = project
@@ -182,6 +185,32 @@ class Evaluator:
             return val
         if isinstance(e, ast.UnaryOp) and isinstance(e.op, ast.Not):
             return not self.truth(self.expr(m, e.operand, env))
+        if isinstance(e, ast.UnaryOp) and isinstance(e.op, ast.USub):
+            v = self.expr(m, e.operand, env)
+            if isinstance(v, (int, float)) and not isinstance(v, bool):
+                return -v
+            raise AnalysisError(f"absinterp: negation of non-number: {norm(e)}")
+        if isinstance(e, ast.BinOp):
+            a, b = self.expr(m, e.left, env), self.expr(m, e.right, env)
+            num = lambda x: isinstance(x, (int, float)) and not isinstance(x, bool)
+            seq = lambda x: isinstance(x, (str, bytes, list, tuple))
+            try:
+                if isinstance(e.op, ast.Add) and ((num(a) and num(b)) or (seq(a) and type(a) is type(b))):
+                    return a + b
+                if isinstance(e.op, ast.Sub) and num(a) and num(b):
+                    return a - b
+                if isinstance(e.op, ast.Mult) and ((num(a) and num(b)) or (seq(a) and isinstance(b, int) and -1 <= b <= 4096) or (seq(b) and isinstance(a, int) and -1 <= a <= 4096)):
+                    return a * b
+                if isinstance(e.op, ast.Mod) and num(a) and num(b):
+                    return a % b
+                if isinstance(e.op, ast.FloorDiv) and num(a) and num(b):
+                    return a // b
+            except ZeroDivisionError:
+                raise Raised("ZeroDivisionError")
+            raise AnalysisError(f"absinterp: arithmetic outside the decidable subset: {norm(e)[:100]}")
+        if isinstance(e, (ast.List, ast.Set)):
+            vals = [self.expr(m, x, env) for x in e.elts]
+            return vals if isinstance(e, ast.List) else set(vals)
         if isinstance(e, ast.IfExp):
             return self.expr(m, e.body if self.truth(self.expr(m, e.test, env)) else e.orelse, env)
         if isinstance(e, ast.Compare):
@@ -200,6 +229,11 @@ class Evaluator:
                     r = left == right
                 elif isinstance(op, ast.NotEq):
                     r = left != right
+                elif isinstance(op, (ast.Lt, ast.LtE, ast.Gt, ast.GtE)) and type(left) in (int, float, str, bytes) and type(right) in (int, float, str, bytes):
+                    try:
+                        r = {ast.Lt: left < right, ast.LtE: left <= right, ast.Gt: left > right, ast.GtE: left >= right}[type(op)]
+                    except TypeError:
+                        raise Raised("TypeError")
                 else:
                     raise AnalysisError(f"absinterp: comparison outside subset: {norm(e)}")
                 if not r:
@@ -240,6 +274,15 @@ class Evaluator:
             return self.truth(args[0])
         if d == "str" and len(args) == 1 and isinstance(args[0], str):
             return args[0]
+        if d == "len" and len(args) == 1 and isinstance(args[0], (str, bytes, list, tuple, dict, set, frozenset)):
+            return len(args[0])
+        if d == "bytes" and len(args) == 1 and isinstance(args[0], (list, tuple, bytes)):
+            try:
+                return bytes(args[0])
+            except (ValueError, TypeError):
+                raise Raised("ValueError")
+        if d == "int" and len(args) == 1 and isinstance(args[0], (int, bool)):
+            return int(args[0])
         if d == "importlib.import_module" and len(args) == 1:
             return ("imported-module", args[0])
         if d == "getattr" and len(args) == 2 and isinstance(args[0], tuple) and args[0][0] == "imported-module":
@@ -256,6 +299,8 @@ class Evaluator:
             recv = self.expr(m, e.func.value, env)
             meth = e.func.attr
             if isinstance(recv, str) and meth in self.STR_METHODS:
+                return getattr(recv, meth)(*args)
+            if isinstance(recv, bytes) and meth in self.STR_METHODS and all(isinstance(a, (bytes, int, tuple)) for a in args):
                 return getattr(recv, meth)(*args)
             if isinstance(recv, dict) and meth in ("get", "keys", "items", "values"):
                 r = getattr(recv, meth)(*args)
